@@ -53,7 +53,7 @@ def observe_case_(a, th, tracked, sample_lists, cmap, tmap, tscale, rng):
         kw["tracked_samples"] = tracked
     trees = []
     times = sorted(set(a["time"]))
-    for tree in ts.trees(**kw):
+    def full(tree, r):
         ob = observe_tree(tree, cmap)
         ob["num_roots"] = int(tree.num_roots)
         ob["muts"] = [int(m.id) for m in tree.mutations()]
@@ -64,7 +64,7 @@ def observe_case_(a, th, tracked, sample_lists, cmap, tmap, tscale, rng):
         ob["mrca"] = [[int(tree.mrca(u, v)) for v in range(N)] for u in range(N)]
         # mrca / tmrca of three and four nodes (any nodes, repeats allowed): [args, mrca, abstract time of tmrca or -1 when it raises]
         mm = []
-        r2 = random.Random(7919 * len(trees) + 31 * N + len(a["edges"]))     # its own generator: the draws of the other observations stay as they were
+        r2 = random.Random(7919 * int(tree.index) + 31 * N + len(a["edges"]))     # its own generator: the draws of the other observations stay as they were
         for _ in range(6):
             args_ = [r2.randrange(N) for _j in range(r2.choice([3, 3, 4]))]
             try:
@@ -91,7 +91,7 @@ def observe_case_(a, th, tracked, sample_lists, cmap, tmap, tscale, rng):
         ob["nchild"] = [int(tree.num_children(u)) for u in range(N)]
         pl = []
         for _ in range(4):
-            u, v = rng.randrange(N), rng.randrange(N)
+            u, v = r.randrange(N), r.randrange(N)
             x = tree.path_length(u, v)
             pl.append([u, v, -1 if x == float("inf") else int(x)])
         ob["pathlen"] = pl
@@ -100,11 +100,14 @@ def observe_case_(a, th, tracked, sample_lists, cmap, tmap, tscale, rng):
         ob["sibs"] = [[int(v) for v in tree.siblings(u)] for u in range(N)]
         ob["isol"] = [1 if tree.is_isolated(u) else 0 for u in range(N)]
         ob["pdict"] = [[int(u), int(p)] for u, p in sorted(tree.parent_dict.items())]
-        sub = rng.randrange(N + 1)  # may be the virtual root
+        sub = r.randrange(N + 1)  # may be the virtual root
         ob["subroot"] = sub
         ob["subpre"] = [int(u) for u in tree.nodes(sub, order="preorder")]
         ob["subpost"] = [int(u) for u in tree.nodes(sub, order="postorder")]
-        trees.append(ob)
+        return ob
+
+    for tree in ts.trees(**kw):
+        trees.append(full(tree, rng))
     L = a["L"]
 
     def diffs(**kwargs):
@@ -144,6 +147,35 @@ def observe_case_(a, th, tracked, sample_lists, cmap, tmap, tscale, rng):
                 and sorted(o3["roots"]) == sorted(want["roots"])):
             reuse = 0
     seq["reuse_same"] = reuse
+    # one Tree object moved about by seek_index / seek in an arbitrary order: whatever it reports about the tree it is on (the whole
+    # observation, child order aside) is what the iteration reported for that tree - nothing remembered from where it was before
+    UNORDERED = ("leaves", "sibs", "samples")
+    SKIP = {"pathlen", "dist", "subroot", "subpre", "subpost", "left_child", "right_child", "left_sib", "right_sib", "roots", "vsamples", "anc"} \
+        | {key for key, _o in ORDERS}
+    revisit, where = 1, ""
+    t5 = tskit.Tree(ts, **kw)
+    r5 = random.Random(31 * N + ts.num_trees)
+    order = list(range(ts.num_trees))
+    r5.shuffle(order)
+    for j, idx in enumerate(order + order[:2]):
+        if j % 2:
+            t5.seek_index(idx)
+        else:
+            iv = trees[idx]
+            t5.seek((cmap(iv["left"]) + cmap(iv["right"])) / 2)
+        o5 = full(t5, random.Random(idx))
+        for f_ in o5:
+            if f_ in SKIP:
+                continue
+            x5, x0 = o5[f_], trees[idx][f_]
+            if f_ in UNORDERED:
+                x5, x0 = [sorted(q) for q in x5], [sorted(q) for q in x0]
+            if x5 != x0 and revisit:
+                revisit, where = 0, "%s of tree %d after %s" % (f_, idx, "seek_index" if j % 2 else "seek")
+        if sorted(o5["roots"]) != sorted(trees[idx]["roots"]) and revisit:
+            revisit, where = 0, "roots of tree %d" % idx
+    seq["revisit_same"] = revisit
+    seq["revisit_where"] = where
     # aslist(): independent copies of every tree, each equal to what the iteration showed (sample lists included)
     same = 1
     for i_, t3 in enumerate(ts.aslist(**kw)):
@@ -245,6 +277,8 @@ def run():
             f.append("at_index_differs_from_iteration")
         if not c["seq"]["reuse_same"]:
             f.append("repositioned_tree_differs_from_iteration")
+        if not c["seq"]["revisit_same"]:
+            f.append("revisited_tree_differs_from_iteration:" + c["seq"]["revisit_where"])
         if not c["seq"]["aslist_same"]:
             f.append("aslist_copy_differs_from_iteration")
         if f:
